@@ -137,8 +137,16 @@ Proof.
        inversion H; subst; rewrite ?Ca, ?Cc; cbn [tcp_state_eqb]; sproj; cbn; auto.
 Qed.
 
+Lemma relisten_timer : forall s ep,
+  s_timer (tcp_set_state (upd_listen_endpoint (tcp_reset s) ep) Listen) = timer_new.
+Proof.
+  intros. pose proof (reset_timer s) as RT. revert RT. generalize (tcp_reset s). intros R RT.
+  sproj. exact RT.
+Qed.
+
 Lemma transition_ret_timer : forall cx s ip r c al aof tg s' reply,
-  tcp_process_transition cx s ip r c al aof = Ok (Ret tg s' reply) -> s_timer s' = s_timer s.
+  tcp_process_transition cx s ip r c al aof = Ok (Ret tg s' reply) ->
+  s_timer s' = s_timer s \/ timer_is_idle (s_timer s') = true.
 Proof.
   intros cx s ip r c al aof tg s' reply H. unfold tcp_process_transition in H.
   pose proof (core_eq_timer _ _ (challenge_ack_core cx s ip r)) as C.
@@ -146,7 +154,9 @@ Proof.
     repeat match type of H with
            | context [if ?b then _ else _] => destruct b
            | (let '(_, _) := ?m in _) = _ => destruct m
-           end; try discriminate; inversion H; subst; sproj; try reflexivity; exact C.
+           end; try discriminate; cbv zeta in H; inversion H; subst;
+    try (right; rewrite relisten_timer; reflexivity);
+    left; sproj; try reflexivity; exact C.
 Qed.
 
 Lemma transition_cont_timer : forall cx s ip r c al aof tg s3,
@@ -198,7 +208,8 @@ Proof.
   obind_inv H. destruct a as ((al, aof), aall). rename E into Hal.
   obind_inv H. rename a into p3. rename E into H3.
   destruct p3 as [t3 s3|t3 s3r rep3].
-  2:{ inversion H; subst s'. rewrite (transition_ret_timer _ _ _ _ _ _ _ _ _ _ H3). exact B2. }
+  2:{ inversion H; subst s'. apply (tb_of_cases _ (s_timer s2)); [exact B2|].
+      destruct (transition_ret_timer _ _ _ _ _ _ _ _ _ _ H3); auto. }
   destruct (transition_cont _ _ _ _ _ _ _ _ _ H3 (inv_weak _ I2) Hcx Hseg) as (W3 & _).
   pose proof (tb_of_cases _ _ _ B2 (transition_cont_timer _ _ _ _ _ _ _ _ _ H3)) as B3.
   obind_inv H. destruct a as (s4, wu). rename E into H4.
@@ -629,16 +640,14 @@ Proof.
   rewrite Hnto, C2, Ht in H. cbn [timer_should_retransmit] in H.
   destruct (Z.geb_spec (cx_now cx) e); [|lia].
   obind_inv H. sproj in H.
-  destruct (s_pending_fast_retransmit q).
+  (* since /repo 883b7a7 the RTO clears pending_fast_retransmit *)
+  cbn [andb negb] in H. revert H.
+  destruct ((s_remote_win_len q =? 0) && negb (rb_is_empty (s_tx_buffer q))) eqn:Hz; intros H.
+  - exfalso. apply andb_true_iff in Hz. destruct Hz as (Hz1 & Hz2).
+    rewrite C7 in Hz1. rewrite C4 in Hz2. unfold rb_is_empty in Hz2.
+    pose proof (li_tx s I) as ((Hl0 & _) & _). apply Hw; lia.
   - inversion H; subst s1 tg; clear H. sproj. rewrite C1, C3, C4, C5, C7, Cm.
-    repeat split; try reflexivity. right. eexists. split; [reflexivity|].
-    unfold rtte_retransmission_timeout in *. cbn [rt_rto rtte_on_retransmit] in *. lia.
-  - destruct ((s_remote_win_len q =? 0) && negb (rb_is_empty (s_tx_buffer q))) eqn:Hz.
-    + exfalso. apply andb_true_iff in Hz. destruct Hz as (Hz1 & Hz2).
-      rewrite C7 in Hz1. rewrite C4 in Hz2. unfold rb_is_empty in Hz2.
-      pose proof (li_tx s I) as ((Hl0 & _) & _). apply Hw; lia.
-    + inversion H; subst s1 tg; clear H. sproj. rewrite C1, C3, C4, C5, C7, Cm.
-      repeat split; try reflexivity. left. reflexivity.
+    repeat split; try reflexivity. left. reflexivity.
 Qed.
 
 (* after a segment that occupies sequence space the retransmission timer runs, with a deadline in
